@@ -237,6 +237,13 @@ Definition const_index (c : const) : option Z :=
   | _ => None
   end.
 
+(* a negative literal index is parsed as -(n): visit_Subscript folds it into a constant *)
+Definition norm_index (s : expr) : expr :=
+  match s with
+  | UnaryOp USub (Const (CInt n)) => Const (CInt (- n))
+  | _ => s
+  end.
+
 Definition const_key (c : const) : bool :=
   match c with CInt _ | CBool _ | CStr _ => true | _ => false end.
 
@@ -286,7 +293,8 @@ Fixpoint simp (fuel : nat) (st : stack) (bound : list string) (c : nat) (e : exp
 
     | Subscript v s =>
         let* (v', c1) := visit c v in
-        let* (s', c2) := visit c1 s in
+        let* (s0, c2) := visit c1 s in
+        let s' := norm_index s0 in
         let default :=
           if is_call_of v' "First" then
             match v' with
